@@ -585,9 +585,11 @@ static void install_handlers(void)
 		sigaction(sigs[i], &sa, NULL);
 	sa.sa_handler = watchdog;
 	sa.sa_flags = SA_ONSTACK | SA_RESTART;
-	sigaction(SIGALRM, &sa, NULL);
+	/* CPU time of this process, not wall-clock time: a case that loops forever burns CPU and is caught;
+	 * a machine that is merely busy with other work cannot make a healthy case look like a hang */
+	sigaction(SIGPROF, &sa, NULL);
 	struct itimerval it = {{1, 0}, {1, 0}};
-	setitimer(ITIMER_REAL, &it, NULL);
+	setitimer(ITIMER_PROF, &it, NULL);
 }
 
 static void emit_summary(double wall)
